@@ -113,7 +113,7 @@ class Codec:
         self.gob = []
         self.meta = {}
 
-    def make(self, sid, ctv, method, accept, size, marker):
+    def make(self, sid, ctv, method, accept, size, marker, inbound=False):
         if sid in self.scns:
             return sid
         key, ct, client = ctv
@@ -143,6 +143,8 @@ class Codec:
             headers["Content-Type"] = [ct]
         if accept:
             headers["Accept"] = [accept]
+        if inbound:     # a caller that is traced already and names its request
+            headers.update({"TraceID": ["t-" + sid], "ParentSpanID": ["p-" + sid], "X-Request-Id": ["r-%s-0123456789abcdefghij0123" % sid]})
         raw = {"method": "POST", "uri": uri, "headers": headers}
         if cls in ("json", "unsup"):
             raw["body"] = json.dumps({"bytes": b64(text), "string": text, "list": lst, "object": {"s": text, "b": b64("b:" + text), "n": size, "l": ol}}[body])
@@ -268,6 +270,109 @@ def whose(events, only, own, others, base_sig):
     return -1
 
 
+RID_LIMIT = 24
+
+
+class MwJudge:
+    """what the shared-state middlewares in front of the handlers (rt -mwstate) did for every request under load:
+    the identifiers in the request context are the request's own (the inbound ones where present, else fresh ones no
+    other request was given), the adaptive sampler whose maximum rate is out of reach sampled every request, the
+    Debug record and the log entries filed under the request id describe this very exchange"""
+
+    def __init__(self, ctx, scns):
+        self.ctx, self.scns = ctx, scns
+        self.owner = {}          # generated identifier -> execution it was given to
+        self.nexec = 0
+        self.per_scn = {}        # scenario id -> [executions, debug records, log entries]
+        self.counts = {"requests": 0, "with_inbound_ids": 0, "sampled_by_unreachable_rate_sampler": 0, "resampled_inside": 0, "debug_records": 0, "log_entries": 0}
+
+    def bad(self, check, desc, o, extra=None):
+        self.ctx.violation("C20/mw/" + check, desc, {"request": o["id"], "observed": extra, "events": [e for e in o["events"] if e.get("ev", "").startswith("mw_")][:8]})
+
+    def own(self, kind, ident, ex, o):
+        k = (kind, ident)
+        if self.owner.setdefault(k, ex) != ex:
+            self.bad("id-shared/" + kind, "the %s %r was given to two requests (%s and %s)" % (kind, ident, self.owner[k][0], ex[0]), o, ident)
+
+    def execution(self, o):
+        self.nexec += 1
+        ex = (o["id"], self.nexec)
+        evs = o["events"]
+        scn = self.scns[o["id"]]
+        hdr = {k.lower(): v[0] for k, v in ((scn.get("raw") or {}).get("headers") or {}).items()}
+        states = {e["at"]: e for e in evs if e.get("ev") == "mw_state"}
+        self.counts["requests"] += 1
+        if set(states) != {"outer", "inner"} or sum(1 for e in evs if e.get("ev") == "mw_state") != 2:
+            self.bad("chain", "the middleware chain was not run once around request %s" % o["id"], o)
+            return
+        outer, inner = states["outer"], states["inner"]
+        in_trace, in_parent, in_rid = hdr.get("traceid"), hdr.get("parentspanid"), hdr.get("x-request-id")
+        if in_trace:
+            self.counts["with_inbound_ids"] += 1
+        # request id
+        for st in (outer, inner):
+            if in_rid:
+                if st["rid"] != in_rid[:RID_LIMIT]:
+                    self.bad("request-id", "request %s carries the request id %r, not the inbound one" % (o["id"], st["rid"]), o)
+            elif not st["rid"] or st["rid"] != outer["rid"]:
+                self.bad("request-id", "request %s has no stable request id of its own" % o["id"], o)
+        if not in_rid:
+            self.own("request id", outer["rid"], ex, o)
+        # trace
+        if in_trace:
+            for st in (outer, inner):
+                if st["trace"] != in_trace or st["parent"] != in_parent:
+                    self.bad("trace", "request %s is traced as %r/%r, not under the inbound trace" % (o["id"], st["trace"], st["parent"]), o)
+        else:
+            if outer["trace"]:
+                self.counts["sampled_by_unreachable_rate_sampler"] += 1
+            else:
+                self.bad("sampler-bound", "request %s was not sampled although the maximum sampling rate is out of reach (every request must be)" % o["id"], o)
+            for st in (outer, inner):
+                if st["parent"]:
+                    self.bad("trace", "request %s has the parent span %r of some other request" % (o["id"], st["parent"]), o)
+            if inner["trace"] != outer["trace"]:
+                self.counts["resampled_inside"] += 1
+            for tid in {outer["trace"], inner["trace"]} - {""}:
+                self.own("trace id", tid, ex, o)
+        for sp in {outer["span"], inner["span"]} - {""}:
+            self.own("span id", sp, ex, o)
+        if (outer["trace"] and not outer["span"]) or not inner["trace"] and outer["trace"]:
+            self.bad("trace", "request %s lost its trace or span on the way in" % o["id"], o)
+        # Debug and Log
+        wreq = next((e for e in evs if e.get("ev") == "wire_req"), {})
+        wresp = next((e for e in evs if e.get("ev") == "wire_resp"), {})
+        gob = "gob" in json.dumps(wreq.get("headers", {}).get("Content-Type", "")) or "gob" in json.dumps(wresp.get("headers", {}).get("Content-Type", ""))
+        per = self.per_scn.setdefault(o["id"], [0, 0, 0])
+        per[0] += 1
+        for e in evs:
+            if e.get("ev") == "mw_debug":
+                per[1] += 1
+                self.counts["debug_records"] += 1
+                ok = not e["mixed"] and e["rid"] == outer["rid"] and e["request"] == "%s %s" % (wreq.get("method"), wreq.get("uri"))
+                if ok and not gob:
+                    ok = e["reqBody"] == wreq.get("body", "") and e["respBody"] == wresp.get("body", "")
+                if not ok:
+                    self.bad("debug-record", "the Debug record filed under the request id of %s is not about this exchange" % o["id"], o, e)
+            if e.get("ev") == "mw_log":
+                per[2] += 1
+                self.counts["log_entries"] += 1
+                ok = e.get("id") == outer["rid"]
+                if "req" in e:
+                    ok = ok and e["req"] == "%s %s" % (wreq.get("method"), wreq.get("uri"))
+                else:
+                    ok = ok and e.get("status") == str(wresp.get("status")) and (gob or e.get("bytes") == str(len(wresp.get("body", "").encode())))
+                if not ok:
+                    self.bad("log-entry", "a log entry filed under the request id of %s is not about this exchange" % o["id"], o, e)
+
+    def finish(self):
+        # two executions of one scenario that carry the same inbound request id may file under either of them
+        for sid, (n, nd, nl) in self.per_scn.items():
+            if nd != n or nl != 2 * n:
+                self.ctx.violation("C20/mw/records-count", "%d executions of request %s left %d Debug records and %d log entries (one and two per execution expected)" % (n, sid, nd, nl),
+                                   {"request": sid})
+
+
 def race_reports(prefix):
     n, tops = 0, []
     for f in glob.glob(prefix + "*"):
@@ -344,6 +449,13 @@ def run(ctx):
                              ("decoder.pooled_buffer_aliased", "Echo", "{TRUE}"), ("decoder.pooled_buffer_aliased", "NoConflict", "{FALSE}")):
         ctx.mc_expect_violation("mc/MC_Concurrency", cfg_text=MC_CFG % inv, consts={"Deviations": '{"%s"}' % dev, "SerialSet": serial},
                                 label="MC dev %s %s" % (dev.split(".")[0], inv))
+    ctx.mc_expect_violation("mc/MC_Concurrency", cfg_text=MC_CFG % "NoConflict", consts={"Deviations": '{"sampler.adjust_unlocked"}'}, label="MC dev sampler NoConflict")
+    # the adaptive sampler in detail: its rate adjustment is a critical section although the counter is reset before it
+    for size in ((2,) if quick else (1, 2, 4)):
+        ctx.mc("mc/MC_Sampler", consts={"SampleSize": size}, label="MC Sampler size=%d" % size)
+        ctx.mc_expect_violation("mc/MC_Sampler", consts={"SampleSize": size, "Deviations": '{"sampler.adjust_unlocked"}'}, label="MC dev Sampler size=%d" % size)
+    if not quick:
+        ctx.mc("mc/MC_Sampler", consts={"SampleSize": 4, "N": 4, "Calls": 3}, label="MC Sampler size=4 N=4", timeout=1500)
     vectors = ctx.gen("mc/MC_Concurrency", "gen/Gen_Concurrency.cfg", consts={"K": 2}, workers=1, label="Gen K=2").vectors
     cvec = ctx.gen("mc/MC_Concurrency", "gen/Gen_Concurrency_Codec.cfg", workers=1, label="Gen K=2 codecs", timeout=1500).vectors
     for v in vectors:
@@ -403,7 +515,7 @@ def run(ctx):
     scns.update(cx.scns)
     open(os.path.join(cwd, "scn.ndjson"), "w").write("".join(json.dumps(s) + "\n" for s in scns.values()))
     # 1. sequential baseline: every request served alone
-    run_bin(ctx, binp, cwd, ["-mwlookup", "-in", "scn.ndjson", "-out", "base.ndjson"], "base")
+    run_bin(ctx, binp, cwd, ["-mwlookup", "-mwstate", "-in", "scn.ndjson", "-out", "base.ndjson"], "base")
     base, base_ev = {}, {}
     for l in open(os.path.join(cwd, "base.ndjson")):
         o = json.loads(l)
@@ -423,8 +535,8 @@ def run(ctx):
     ser = [s for s in scheds if s["serial"]]
     open(os.path.join(cwd, "sched-free.ndjson"), "w").write("".join(json.dumps(s) + "\n" for s in free))
     open(os.path.join(cwd, "sched-serial.ndjson"), "w").write("".join(json.dumps(s) + "\n" for s in ser))
-    nrace, tops = run_bin(ctx, binp, cwd, ["-mwlookup", "-in", "scn.ndjson", "-out", "sched-free-out.ndjson", "-schedules", "sched-free.ndjson"], "sched")
-    nr2, tops_s = run_bin(ctx, binp, cwd, ["-mwlookup", "-in", "scn.ndjson", "-out", "sched-serial-out.ndjson", "-schedules", "sched-serial.ndjson"], "sched-serial",
+    nrace, tops = run_bin(ctx, binp, cwd, ["-mwlookup", "-mwstate", "-in", "scn.ndjson", "-out", "sched-free-out.ndjson", "-schedules", "sched-free.ndjson"], "sched")
+    nr2, tops_s = run_bin(ctx, binp, cwd, ["-mwlookup", "-mwstate", "-in", "scn.ndjson", "-out", "sched-serial-out.ndjson", "-schedules", "sched-serial.ndjson"], "sched-serial",
                           env={"GOMAXPROCS": "1"})
     nrace, tops = nrace + nr2, tops + tops_s
     ctx.log("replayed %d free and %d serial schedules under -race: %d race report(s)" % (len(free), len(ser), nrace))
@@ -498,22 +610,24 @@ def run(ctx):
     for i in range(nreq):
         ctv, m, a = variants[i % len(variants)]
         size = rnd.choice(BIG_SIZES) if i % 97 == 96 else rnd.choice(SIZES)
-        lx.make("L%d" % i, ctv, m, a, size, "~L%d~" % i)
+        lx.make("L%d" % i, ctv, m, a, size, "~L%d~" % i, inbound=(i % 3 == 0))
     lx.encode_gob(ctx, cb, cwd)
     lscn = scenarios() + list(lx.scns.values())
     rnd.shuffle(lscn)
     open(os.path.join(cwd, "load-scn.ndjson"), "w").write("".join(json.dumps(s) + "\n" for s in lscn))
-    run_bin(ctx, binp, cwd, ["-mwlookup", "-in", "load-scn.ndjson", "-out", "load-base.ndjson"], "load-base")
+    run_bin(ctx, binp, cwd, ["-mwlookup", "-mwstate", "-in", "load-scn.ndjson", "-out", "load-base.ndjson"], "load-base")
     lbase = {}
     for l in open(os.path.join(cwd, "load-base.ndjson")):
         o = json.loads(l)
         lbase[o["id"]] = signature(o["events"])
     par, rounds = (32, 2) if quick else (64, 6)
-    nrace2, tops2 = run_bin(ctx, binp, cwd, ["-mwlookup", "-in", "load-scn.ndjson", "-out", "load.ndjson", "-parallel", str(par), "-rounds", str(rounds)], "load")
+    nrace2, tops2 = run_bin(ctx, binp, cwd, ["-mwlookup", "-mwstate", "-in", "load-scn.ndjson", "-out", "load.ndjson", "-parallel", str(par), "-rounds", str(rounds)], "load")
     nload, lcells = 0, {}
+    mw = MwJudge(ctx, {s_["id"]: s_ for s_ in lscn})
     for l in open(os.path.join(cwd, "load.ndjson")):
         o = json.loads(l)
         nload += 1
+        mw.execution(o)
         m = lx.meta.get(o["id"])
         cell = "%s/%s" % (m["ct"], m["body"]) if m else "gen/object"
         lcells[cell] = lcells.get(cell, 0) + 1
@@ -526,12 +640,14 @@ def run(ctx):
     ctx.cov["evaluations"] += nload
     ctx.log("load: %d requests (%d distinct, %d content type x body cells) from %d goroutines: %d race report(s)" % (nload, len(lscn), len(lcells), par, nrace2))
     report_races(ctx, tops2, nrace2, "load", "under load")
+    mw.finish()
+    ctx.cov["middlewares_under_load"] = mw.counts
     # 4. runtime helpers used directly (codec matrix included)
     dd = ctx.subdir("conc")
     prefix = os.path.join(dd, "race-conc")
     env = dict(ctx.goenv(), GORACE="log_path=%s exitcode=0 halt_on_error=0" % prefix)
     p = subprocess.run([cb, "-out", os.path.join(dd, "out.ndjson"), "-seed", str(ctx.seed), "-goroutines", "16" if quick else "64", "-iters", "150" if quick else "1500",
-                        "-codec", "150" if quick else "1200"],
+                        "-codec", "150" if quick else "1200", "-mw", "60" if quick else "600"],
                        cwd=dd, env=env, stdout=subprocess.PIPE, stderr=subprocess.PIPE, text=True, timeout=1500)
     if p.returncode != 0:
         raise core.Infra("conc driver failed: %s" % p.stderr[-2000:])
